@@ -105,12 +105,25 @@ type cpty struct {
 	rev     uint64
 	vals    *cmttypes.ValidatorSet
 	signers map[string]cmttypes.PrivValidator
+	// nextHash, when set, is the header's NextValidatorsHash (default: the hash of vals)
+	nextHash []byte
+}
+
+// withNext returns a copy of the counterparty whose headers announce another next validator set.
+func (c *cpty) withNext(h []byte) *cpty {
+	cc := *c
+	cc.nextHash = h
+	return &cc
 }
 
 var unusedHash = tmhash.Sum([]byte{0x00})
 
 // header builds a signed 07-tendermint Header for the given height/time/app hash with the trusted fields set.
 func (c *cpty) header(e *env, height uint64, ts int64, appHash []byte, trusted clienttypes.Height, corruptSig bool) *ibctm.Header {
+	nextHash := c.vals.Hash()
+	if c.nextHash != nil {
+		nextHash = c.nextHash
+	}
 	ph := cmttypes.Header{
 		Version:            cmtprotoversion.Consensus{Block: cmtversion.BlockProtocol, App: 2},
 		ChainID:            c.chainID,
@@ -120,7 +133,7 @@ func (c *cpty) header(e *env, height uint64, ts int64, appHash []byte, trusted c
 		LastCommitHash:     unusedHash,
 		DataHash:           unusedHash,
 		ValidatorsHash:     c.vals.Hash(),
-		NextValidatorsHash: c.vals.Hash(),
+		NextValidatorsHash: nextHash,
 		ConsensusHash:      unusedHash,
 		AppHash:            appHash,
 		LastResultsHash:    unusedHash,
